@@ -234,7 +234,9 @@ def draw_call(arch, **kwargs):
 
 def _c17_case(seed):
     rng = random.Random(seed)
-    mods = rng.choice([LTREE, TREES["nestedprefix"], TREES["deeper"], ["p", "p.a", "p.ab", "p.a.b", "p.a.b.c", "p.a.bc", "p+q", "p.a+"]])
+    mods = rng.choice([LTREE, TREES["nestedprefix"], TREES["deeper"], ["p", "p.a", "p.ab", "p.a.b", "p.a.b.c", "p.a.bc", "p+q", "p.a+"],
+                      # an aliased module's name occurring again further right in a descendant's name (only the LEADING part is replaced by the alias)
+                      ["core", "core.core_utils", "core.api", "core.api.core", "core.corex", "a", "a.a", "a.a.a", "a.a_b", "a.b.a.a"]])
     if rng.random() < 0.3:
         arch = build_arch(mods, [], level_limit=1)
     else:
@@ -286,7 +288,7 @@ def _c17_case(seed):
 
 
 def bounded_labels(tier, seed):
-    b = Bounded("C17.plot-labels-at-the-drawing-backend", "4 module trees (nested, prefix-named siblings, names with regex metacharacters), random subsets of modules / level_limit=1; alias maps over 0-4 existing "
+    b = Bounded("C17.plot-labels-at-the-drawing-backend", "5 module trees (nested, prefix-named siblings, names with regex metacharacters, names repeated inside descendants' names), random subsets of modules / level_limit=1; alias maps over 0-4 existing "
                 "modules with alias strings containing dots and regex metacharacters; with and without spacing and extra drawing options; observed at the intercepted draw_networkx call; 2500/150000 cases")
     for res in pmap(_c17_case, [seed * 100003 + i for i in range(2500 if tier == "quick" else 150000)]):
         b.case()
@@ -322,13 +324,23 @@ def _c14l_case(seed):
         la = make_architecture([(n, ("names", [R(x) for x in v])) for n, (k, v) in defs])
         kind, msg = outcome(layer_rule(la, subject, verb, acc, exc, [obj]), arch)
         res[nm] = (kind, sorted(unrename_text(msg, rho, mods).split("\n")) if kind == "fail" else msg)
-        aliases = {R(defs[0][1][1][0]): "AL"}
-        try:
-            (args, got), _ = draw_call(arch, aliases=aliases)
-            inv = {R(m): m for m in mods}
-            res[nm] += (sorted((inv[k], v.startswith("AL")) for k, v in got["labels"].items()),)
-        except Exception as e:
-            res[nm] += (type(e).__name__,)
+        # labels: the whole label is compared, its un-aliased rest translated back component by component (alias on a layer module, and on the root)
+        inv = {R(m): m for m in mods}
+        def shape(k, v):
+            # renaming-independent description of a label: the module's own name, or the alias followed by the module's last n components
+            if v == k:
+                return "name"
+            comps = k.split(".")
+            for n in range(len(comps)):
+                if v == "AL" + "".join("." + c for c in comps[len(comps) - n:]):
+                    return f"alias+last{n}"
+            return "other:" + v
+        for aliases in ({R(defs[0][1][1][0]): "AL"}, {R("r"): "AL"}):
+            try:
+                (args, got), _ = draw_call(arch, aliases=aliases)
+                res[nm] += (sorted((inv[k], shape(k, v)) for k, v in got["labels"].items()),)
+            except Exception as e:
+                res[nm] += (type(e).__name__,)
     if not (res["free"] == res["adv"] == res["adv2"]):
         return [dict(case="renaming-layers-labels", detail=f"layer verdict / message (with layer tags) / labels differ under injective renamings: {res}", input=dict(kind="c14l", seed=seed))]
     return []
